@@ -939,6 +939,10 @@ func arith(v interface{}) float64 {
 		if IsCanonNumeric(x) {
 			return Num(x)
 		}
+		// a decimal number with an explicit plus sign spells that number
+		if len(x) > 1 && x[0] == '+' && x[1] != '-' && x[1] != '+' && IsCanonNumeric(x[1:]) {
+			return Num(x[1:])
+		}
 	}
 	oor("arithmetic operand %T(%v)", v, v)
 	return 0
